@@ -22,7 +22,7 @@ def valOK : GoVal → Bool
   | .ptr v => valOK v
   | .sl xs | .arr xs | .st xs => valsOK xs
   | .map kvs => entriesOK kvs
-  | .lib _ | .raw _ => false
+  | .raw _ => false
   | _ => true
 def valsOK : List GoVal → Bool
   | [] => true
@@ -43,6 +43,8 @@ def handleDis (T pv : String) (rest : List String) : Option String := do
   else if !tagOK co 0 t then pure "model=panic"
   else
     let p := compile co t (pv == "1")
+    -- a pointer-receiver callback type that is not addressable is compiled as the plain struct it is: outside the model
+    if p.any (fun i => match i with | .unsupported _ => true | _ => false) then pure "model=unsupported" else
     pure s!"model=ok\tn={p.length}\tdis={hexArg (disasm p).toUTF8.toList}"
 
 def xerrName : XErr → String
@@ -56,28 +58,35 @@ def handleMar (cfg T V : String) (rest : List String) : Option String := do
   let v0 ← parseVal V
   let o := Enc.optsOfCfg bits
   let co : COpts := {}
-  let v ← match prepV t v0 with
-    | some v => some v
-    | none => some v0
-  let out := Enc.field rest "out"
-  let sub := if Sub t && Conf co t v && decide (needV t v ≤ maxStack) then "1" else "0"
-  if !noLib t || !valOK v || !tagOK co 0 t then pure "model=unsupported"
-  else
-    let spec := encode o t v
-    match execFuel 1000000000 o co (compile co t false) v with
-    | none => pure "model=unsupported\twhy=fuel"
-    | some (.error .stuck) => pure "model=unsupported\twhy=stuck"
-    | some (.error e) =>
-      let same := match e, spec with
-        | .enc a, .error b => a == b
-        | .tooDeep, _ => true
-        | _, _ => false
-      pure s!"model=err:{xerrName e}\tspec={if same then "eq" else "ne"}\tsub={sub}"
-    | some (.ok m) =>
-      let same := match spec with
-        | .ok s => s == m
-        | _ => false
-      pure s!"model=ok\tmout={hexArg m}\tspec={if same then "eq" else "ne"}\tso={Enc.rel o.sortMapKeys (some m) out}\tsub={sub}"
+  match prepV t v0 with
+  | none => pure "model=unsupported\twhy=value"
+  | some v =>
+    let out := Enc.field rest "out"
+    let sub := if Sub t && Conf co t v && decide (needV t v ≤ maxStack) then "1" else "0"
+    if !noLib t || !valOK v || !tagOK co 0 t then pure "model=unsupported"
+    else
+      let spec := encode o t v
+      match execFuel 1000000000 o co (compile co t false) v with
+      | none => pure "model=unsupported\twhy=fuel"
+      | some (.error .stuck) => pure "model=unsupported\twhy=stuck"
+      | some (.error (.enc .unchecked)) => pure "model=unsupported\twhy=unchecked"   -- the specification makes no claim
+      | some (.error (.enc .unsupportedType)) =>
+        -- a pointer-receiver callback type that is not addressable (compiled as a plain struct: outside the model), or a type
+        -- the specification refuses as well
+        match spec with
+        | .error .unsupportedType => pure s!"model=err:unsupported_type\tspec=eq\tsub={sub}"
+        | _ => pure "model=unsupported\twhy=callback"
+      | some (.error e) =>
+        let same := match e, spec with
+          | .enc a, .error b => a == b
+          | .tooDeep, _ => true
+          | _, _ => false
+        pure s!"model=err:{xerrName e}\tspec={if same then "eq" else "ne"}\tsub={sub}"
+      | some (.ok m) =>
+        let same := match spec with
+          | .ok s => s == m
+          | _ => false
+        pure s!"model=ok\tmout={hexArg m}\tspec={if same then "eq" else "ne"}\tso={Enc.rel o.sortMapKeys (some m) out}\tsub={sub}"
 
 def handle : List String → Option String
   | "irdis" :: T :: pv :: rest => handleDis T pv rest
